@@ -23,7 +23,10 @@ pub fn drive(vectors: &str, out: &str, thorough: bool, seed: u64) {
     };
     p.config(extra.as_ref());
     for r in v["rules"].as_array().unwrap() {
-      let mut rule = json!({"id": r["id"], "language": r["lang"], "severity": r["sev"], "message": "m", "rule": {"pattern": "foo($A)"}});
+      // r2 is a bare identifier: a pattern that can match in the tree of another language as well (the identifier kind
+      // has the same number in most grammars), so a rule applied to a file of the wrong language shows up as a finding
+      let pat = if r["id"] == "r2" { "foo" } else { "foo($A)" };
+      let mut rule = json!({"id": r["id"], "language": r["lang"], "severity": r["sev"], "message": "m", "rule": {"pattern": pat}});
       if !r["files"].as_array().unwrap().is_empty() {
         rule["files"] = r["files"].clone();
       }
@@ -40,7 +43,7 @@ pub fn drive(vectors: &str, out: &str, thorough: bool, seed: u64) {
         else { "foo(1);\n".to_string() };
       p.write(path, body.as_bytes());
     }
-    let mut args: Vec<String> = vec!["scan".into(), "--json=stream".into()];
+    let mut args: Vec<String> = vec!["scan".into(), "--json=stream".into(), "--inspect".into(), "entity".into()];
     let dflt = v["dflt"].as_str().unwrap();
     if dflt != "none" {
       args.push(format!("--{dflt}"));
@@ -79,7 +82,21 @@ pub fn drive(vectors: &str, out: &str, thorough: bool, seed: u64) {
       }
     }
     p.remove();
-    json!({"id": format!("c15v{i}"), "cfg": v, "args": args, "fired": per_path, "exit": o.code, "suppressed": suppressed, "severities": severities, "sev": sev,
+    // the command's own account of what it applied: `sg: entity|file|<path>: language=L,appliedRuleCount=N` (stderr)
+    let mut applied = serde_json::Map::new();
+    for path in PATHS {
+      applied.insert(path.to_string(), json!(0));
+    }
+    let mut inspected = false;
+    for line in o.stderr.lines() {
+      let Some(rest) = line.strip_prefix("sg: entity|file|") else { continue };
+      let Some((path, kv)) = rest.rsplit_once(": ") else { continue };
+      let Some(n) = kv.split(',').find_map(|x| x.strip_prefix("appliedRuleCount=")).and_then(|n| n.parse::<usize>().ok()) else { continue };
+      inspected = true;
+      applied.insert(path.trim_start_matches("./").to_string(), json!(n));
+    }
+    inspected |= o.stderr.lines().any(|l| l.starts_with("sg: summary|file:"));
+    json!({"id": format!("c15v{i}"), "cfg": v, "args": args, "fired": per_path, "applied": applied, "inspected": inspected, "exit": o.code, "suppressed": suppressed, "severities": severities, "sev": sev,
            "stderr": o.stderr.chars().take(300).collect::<String>()})
   });
   let _ = std::fs::remove_dir_all(&scratch);
